@@ -20,13 +20,17 @@ class Config:
 
 
 class Target:
-    def __init__(self, mod, qualname, configs, prims=None, kinds=None, instantiate=False, tier='P', note=''):
+    def __init__(self, mod, qualname, configs, prims=None, kinds=None, instantiate=False, tier='P', note='', body_slice=None, label=None):
+        """body_slice: optional callable(list of statements) -> (start, stop): only this statement range of the function body is
+        executed (a *phase* of a long function, delimited by the statements that start/end it, never by line numbers)"""
+        self.body_slice, self.label = body_slice, label
         self.mod, self.qualname, self.configs = mod, qualname, configs
         self.prims, self.kinds, self.instantiate, self.tier, self.note = prims, kinds, instantiate, tier, note
 
     @property
     def fullname(self):
-        return f'kyupy.{self.mod}.{self.qualname}' if self.mod != '__init__' else f'kyupy.{self.qualname}'
+        base = f'kyupy.{self.mod}.{self.qualname}' if self.mod != '__init__' else f'kyupy.{self.qualname}'
+        return base + (f'[{self.label}]' if self.label else '')
 
 
 class Lemmas:
@@ -110,6 +114,14 @@ def generate(targets, report):
         try:
             fn, sha = source.find(t.mod, t.qualname)
             globs = source.module_namespace(t.mod)
+            if t.body_slice is not None:
+                import ast as _ast, hashlib as _hl, copy as _copy
+                a, b_ = t.body_slice(fn.body)
+                fn = _copy.copy(fn)
+                fn.body = fn.body[a:b_]
+                if not fn.body:
+                    raise ContractError('phase not found')
+                sha = _hl.sha256('\n'.join(_ast.unparse(x) for x in fn.body).encode()).hexdigest()
         except ContractError as e:
             report.undecided.append(Undecided(t, None, f'contract does not bind: {e}'))
             continue
@@ -126,6 +138,10 @@ def generate(targets, report):
                 continue
             except ContractError as e:
                 report.undecided.append(Undecided(t, c, f'contract does not bind: {e}'))
+                continue
+            except KeyError as e:
+                # a variable / field that the contract mentions does not exist (any more) in the code: the contract does not bind
+                report.undecided.append(Undecided(t, c, f'contract does not bind: the code has no variable or field {e}'))
                 continue
             except Exception as e:  # checker defect -- surfaced by the caller as exit 3
                 report.undecided.append(Undecided(t, c, 'CHECKER-CRASH ' + ''.join(traceback.format_exception_only(e)).strip()
